@@ -705,7 +705,7 @@ func (w *c14World) corpus(state string, rng *vfRng, full bool) []c14Req {
 	bcast("dkg-nil", &pdkg.DKGPacket{})
 	bcast("bundle-none", &pdkg.DKGPacket{Dkg: &pdkg.Packet{Metadata: tmd}})
 	bcast("bundle-deal-nil", &pdkg.DKGPacket{Dkg: &pdkg.Packet{Metadata: tmd, Bundle: &pdkg.Packet_Deal{}}})
-	bcast("bundle-deal-nil-entries", &pdkg.DKGPacket{Dkg: &pdkg.Packet{Metadata: tmd, Bundle: &pdkg.Packet_Deal{Deal: &pdkg.DealBundle{Deals: []*pdkg.Deal{nil, nil}, Commits: [][]byte{nil, {}}}}}}})
+	bcast("bundle-deal-nil-entries", &pdkg.DKGPacket{Dkg: &pdkg.Packet{Metadata: tmd, Bundle: &pdkg.Packet_Deal{Deal: &pdkg.DealBundle{Deals: []*pdkg.Deal{nil, nil}, Commits: [][]byte{nil, {}}}}}})
 	bcast("bundle-deal-1MiB", &pdkg.DKGPacket{Dkg: &pdkg.Packet{Metadata: tmd, Bundle: &pdkg.Packet_Deal{Deal: &pdkg.DealBundle{DealerIndex: math.MaxUint32, Commits: [][]byte{rng.Bytes(1 << 20)}, SessionId: rng.Bytes(32), Signature: rng.Bytes(96)}}}})
 	bcast("bundle-response-nil", &pdkg.DKGPacket{Dkg: &pdkg.Packet{Metadata: tmd, Bundle: &pdkg.Packet_Response{}}})
 	bcast("bundle-response-nil-entries", &pdkg.DKGPacket{Dkg: &pdkg.Packet{Metadata: tmd, Bundle: &pdkg.Packet_Response{Response: &pdkg.ResponseBundle{Responses: []*pdkg.Response{nil}}}}})
